@@ -109,6 +109,8 @@ type PlanRun struct {
 	lateNever    int // the engine timed an attempt out before the worker pool had entered the plugin (no Start at all)
 	lateEnds     int // an invocation logged a non-overrun End before its deadline, yet the engine recorded a timeout AFTER the deadline
 	startErr     string
+	msgSeed      uint64
+	emptyMsgs    int  // plugin errors delivered with an empty message
 	startOK      int  // Start calls that returned nil
 	raced        int  // racing Start calls made (0 = one ordinary call)
 	ctxCancelled bool // Start got a context that the harness cancelled afterwards
@@ -258,6 +260,22 @@ func Behave(ctx context.Context, p *hplug.Plugin, req any) (any, *plugins.Error)
 		perr = &plugins.Error{Code: 1, Message: "scripted transient error"}
 	case OPerm:
 		perr = &plugins.Error{Code: 2, Message: "scripted permanent error", Permanent: true}
+	}
+	if perr != nil && (o == OErr || o == OPerm) {
+		// an error is an error whatever its text: with probability 0.3 (a PRNG of its own, keyed by the case, the
+		// action and the invocation) the plugin's error has an EMPTY message
+		h := uint64(0)
+		for _, ch := range a.path {
+			h = h*131 + uint64(ch)
+		}
+		if core.NewRand(run.msgSeed).Fork(h).Fork(uint64(a.starts)).Chance(0.3) {
+			perr.Message = ""
+			logMu.Lock()
+			run.emptyMsgs++
+			logMu.Unlock()
+		}
+	}
+	switch o {
 	case OWrongType:
 		resp = hplug.AltResp{Echo: "wrong response type"}
 	case OOverrun:
